@@ -349,7 +349,7 @@ theorem sampleBody_safe {env : Env} (henv : EnvOk env) {rec : Rec} {mode : Mode}
       cases huc : env.p.useCalc with
       | true =>
         simp only [if_true]
-        exact getSplitterCalc_eq hbst' (by rw [htb]; exact indexOk _ henv.tb31) i hi
+        exact getSplitterCalc_eq hbst' (by rw [htb]; exact indexOk _ (by have := henv.tb15; omega)) i hi
       | false => simp [Classifier.getSplitterArr]
     · intro s hs
       have h1 := hsplmem s hs
@@ -363,14 +363,23 @@ theorem sampleBody_safe {env : Env} (henv : EnvOk env) {rec : Rec} {mode : Mode}
       id < 2 * numSplitters env.p.treebits + 1) keys (fun k _ => ?_)) (fun ids hids => ?_)
   · have hf := findBkt_bst hbst' hcls.spl k
     rw [hf]
-    refine Safe.liftO ⟨_, rfl, rfl, ?_⟩
     have hlb := lowerBound_le c'.splitters k
     rw [hSlen] at hlb
-    split
-    · rename_i hsome
-      have := (List.getElem?_eq_some_iff.1 hsome).1
-      rw [hSlen] at this; omega
-    · omega
+    have hlt : 2 * lowerBound c'.splitters k + (if c'.splitters[lowerBound c'.splitters k]? = some k then 1 else 0) <
+        2 * numSplitters env.p.treebits + 1 := by
+      split
+      · rename_i hsome
+        have := (List.getElem?_eq_some_iff.1 hsome).1
+        rw [hSlen] at this; omega
+      · omega
+    -- the bucket id fits the `std::uint16_t` bucket cache
+    have h16 : 2 * numSplitters env.p.treebits + 1 ≤ 65536 := by
+      unfold numSplitters
+      have : 2 ^ env.p.treebits ≤ 2 ^ 15 := Nat.pow_le_pow_right (by omega) henv.tb15
+      omega
+    simp only [Option.map_some]
+    rw [u16_of_lt (by omega)]
+    exact Safe.liftO ⟨_, rfl, rfl, hlt⟩
   have hidlen : ids.length = strs.length := by rw [← hids.length_eq, hlen]
   have hzip : ∀ q ∈ strs.zip ids, q.1 ∈ strs ∧ ∃ k, getKey? q.1 p.length = some k ∧ c'.findBkt env.p.useCalc k = some q.2 := by
     intro q hq
